@@ -2194,6 +2194,215 @@ def generate_util():
     return '\n'.join(lines) + '\n'
 
 
+# ---------------------------------------------------------------- translator to coq/RebuildAst.v
+class RebuildTranslator:
+    """_rebuild of the base classes / Constant / Variable and the n / base properties -> RebuildAst.pfun"""
+
+    def __init__(self, where):
+        self.where = where
+
+    def fail(self, what, node=None):
+        raise TieError('cannot translate %s in %s: %s' % (what, self.where, ast.dump(node)[:160] if node is not None else ''))
+
+    def expr(self, e):
+        if isinstance(e, ast.Name) and e.id != 'self':
+            return '(PName %s)' % coq_str(e.id)
+        if isinstance(e, ast.Attribute) and isinstance(e.value, ast.Name) and e.value.id == 'self':
+            return '(PField %s)' % coq_str(e.attr)
+        if isinstance(e, ast.Call) and not e.keywords:
+            f = e.func
+            if isinstance(f, ast.Attribute) and f.attr == '__class__' and isinstance(f.value, ast.Name) and f.value.id == 'self':
+                args = []
+                for a in e.args:
+                    if isinstance(a, ast.Starred):
+                        args.append('("*", %s)' % self.expr(a.value))
+                    else:
+                        args.append('("", %s)' % self.expr(a))
+                return '(PSelfClass %s)' % coq_list(args)
+            if isinstance(f, ast.Name) and f.id in ('Constant', 'Variable') and len(e.args) == 1:
+                return '(PCtor %s %s)' % (coq_str(f.id), self.expr(e.args[0]))
+        self.fail('expression', e)
+
+    def function(self, fd, decorators=()):
+        got = [ast.unparse(d) for d in getattr(fd, 'decorator_list', [])]
+        if got != list(decorators):
+            self.fail('decorators %r' % (got,), fd)
+        a = fd.args
+        if a.kwonlyargs or a.kwarg or a.posonlyargs or a.defaults:
+            self.fail('parameters', fd)
+        params = [p.arg for p in a.args]
+        if not params or params[0] != 'self':
+            self.fail('method without self', fd)
+        star = a.vararg is not None
+        if star and params[1:]:
+            self.fail('mixed parameters', fd)
+        names = [a.vararg.arg] if star else params[1:]
+        body = [st for st in fd.body if not (isinstance(st, ast.Expr) and isinstance(st.value, ast.Constant))]
+        if len(body) != 1 or not isinstance(body[0], ast.Return) or body[0].value is None:
+            self.fail('body (a single return expected)', fd)
+        return '{| p_params := %s; p_star := %s; p_ret := %s |}' % (
+            coq_list([coq_str(p) for p in names]), 'true' if star else 'false', self.expr(body[0].value))
+
+
+REBUILD_CLASSES = {
+    os.path.join('base_expression', 'unary_expression.py'): 'UnaryExpression',
+    os.path.join('base_expression', 'parameterized_unary_expression.py'): 'ParameterizedUnaryExpression',
+    os.path.join('base_expression', 'binary_expression.py'): 'BinaryExpression',
+    os.path.join('base_expression', 'n_ary_expression.py'): 'NAryExpression',
+    os.path.join('expression', 'constant.py'): 'Constant',
+    os.path.join('expression', 'variable.py'): 'Variable',
+}
+PROPERTY_CLASSES = {
+    os.path.join('expression', 'nth_power.py'): ('NthPower', 'n'),
+    os.path.join('expression', 'nth_root.py'): ('NthRoot', 'n'),
+    os.path.join('expression', 'exponential.py'): ('Exponential', 'base'),
+    os.path.join('expression', 'logarithm.py'): ('Logarithm', 'base'),
+}
+
+
+def generate_rebuild():
+    lines = ['(* GENERATED by harness/tie_extract.py: the current source of the _rebuild methods and of the n / base',
+             '   properties, translated into RebuildAst.pfun; and which concrete classes override them -- do not edit *)',
+             'From Coq Require Import ZArith List String.', 'From SM Require Import RebuildAst.',
+             'Import ListNotations.', 'Open Scope string_scope.', '']
+    for rel, cls in sorted(REBUILD_CLASSES.items()):
+        t = parse(os.path.join(SRC, '_private', rel))
+        found = False
+        for node in t.body:
+            if isinstance(node, ast.ClassDef) and node.name == cls:
+                for m in methods_of(node):
+                    if m.name == '_rebuild':
+                        tr = RebuildTranslator('%s._rebuild' % cls)
+                        lines.append('Definition gen_rebuild_%s : pfun := %s.' % (cls, tr.function(m)))
+                        found = True
+        if not found:
+            raise TieError('%s._rebuild not found' % cls)
+    for rel, (cls, prop) in sorted(PROPERTY_CLASSES.items()):
+        t = parse(os.path.join(SRC, '_private', rel))
+        found = False
+        for node in t.body:
+            if isinstance(node, ast.ClassDef) and node.name == cls:
+                for m in methods_of(node):
+                    if m.name == prop:
+                        tr = RebuildTranslator('%s.%s' % (cls, prop))
+                        lines.append('Definition gen_property_%s_%s : pfun := %s.' % (cls, prop, tr.function(m, ('property',))))
+                        found = True
+        if not found:
+            raise TieError('%s.%s not found' % (cls, prop))
+    # no other class may define _rebuild / n / base / __getattr__ / __getattribute__ (an override would bypass the tie)
+    overrides = []
+    for root, _d, files in os.walk(os.path.join(SRC, '_private')):
+        for fn in sorted(files):
+            if not fn.endswith('.py'):
+                continue
+            rel = os.path.relpath(os.path.join(root, fn), os.path.join(SRC, '_private'))
+            t = parse(os.path.join(root, fn))
+            for node in ast.walk(t):
+                if isinstance(node, ast.ClassDef):
+                    for m in methods_of(node):
+                        if m.name == '_rebuild' and REBUILD_CLASSES.get(rel) != node.name and node.name != 'Expression':
+                            overrides.append('%s._rebuild' % node.name)
+                        if m.name in ('n', 'base') and PROPERTY_CLASSES.get(rel) != (node.name, m.name):
+                            overrides.append('%s.%s' % (node.name, m.name))
+                        if m.name in ('__getattr__', '__getattribute__', '__setattr__'):
+                            overrides.append('%s.%s' % (node.name, m.name))
+    lines.append('')
+    lines.append('Definition gen_rebuild_overrides : list string := %s.' % coq_list([coq_str(o) for o in sorted(overrides)]))
+    return '\n'.join(lines) + '\n'
+
+
+# ---------------------------------------------------------------- translator to coq/EntryAst.v
+class EntryTranslator:
+    """Expression._numeric_partials / _synthetic_partials / _normalize -> EntryAst.nfun (fail-closed)"""
+
+    def __init__(self, where):
+        self.where = where
+
+    def fail(self, what, node=None):
+        raise TieError('cannot translate %s in %s: %s' % (what, self.where, ast.dump(node)[:160] if node is not None else ''))
+
+    def expr(self, e):
+        if isinstance(e, ast.Name):
+            return 'NSelf' if e.id == 'self' else '(NName %s)' % coq_str(e.id)
+        if isinstance(e, ast.Constant) and isinstance(e.value, int) and not isinstance(e.value, bool):
+            return '(NInt (%d))' % e.value
+        if isinstance(e, ast.Attribute) and isinstance(e.value, ast.Name) and e.value.id == 'self' and e.attr == '_variable_names':
+            return 'NVarNames'
+        if isinstance(e, ast.Call) and not e.keywords:
+            f, a = e.func, e.args
+            if isinstance(f, ast.Attribute) and isinstance(f.value, ast.Name) and f.value.id == 'acc' and not a:
+                return '(NNewAcc %s)' % coq_str(f.attr)
+            if isinstance(f, ast.Attribute) and isinstance(f.value, ast.Name) and f.value.id == 'ex' and f.attr == 'Constant' \
+                    and len(a) == 1 and isinstance(a[0], ast.Constant) and isinstance(a[0].value, int) \
+                    and not isinstance(a[0].value, bool):
+                return '(NConst (%d))' % a[0].value
+            if isinstance(f, ast.Attribute) and not any(isinstance(x, ast.Starred) for x in a):
+                return '(NCall %s %s %s)' % (self.expr(f.value), coq_str(f.attr), coq_list([self.expr(x) for x in a]))
+        self.fail('expression', e)
+
+    def function(self, fd):
+        if getattr(fd, 'decorator_list', None):
+            self.fail('decorated function', fd)
+        a = fd.args
+        if a.kwonlyargs or a.kwarg or a.posonlyargs or a.vararg or a.defaults:
+            self.fail('parameters', fd)
+        params = [p.arg for p in a.args]
+        if not params or params[0] != 'self':
+            self.fail('method without self', fd)
+        out = []
+        for st in fd.body:
+            if isinstance(st, ast.Expr) and isinstance(st.value, ast.Constant):
+                continue
+            if isinstance(st, ast.Return) and st.value is not None:
+                out.append('(NSReturn %s)' % self.expr(st.value))
+            elif isinstance(st, ast.Assign) and len(st.targets) == 1 and isinstance(st.targets[0], ast.Name):
+                out.append('(NSAssign %s %s)' % (coq_str(st.targets[0].id), self.expr(st.value)))
+            elif isinstance(st, ast.Expr) and isinstance(st.value, ast.Call):
+                out.append('(NSExpr %s)' % self.expr(st.value))
+            else:
+                self.fail('statement', st)
+        return '{| n_params := %s; n_body := %s |}' % (coq_list([coq_str(p) for p in params[1:]]), coq_list(out))
+
+
+ENTRY_METHODS = ('_numeric_partials', '_synthetic_partials', '_normalize')
+
+
+def generate_entry():
+    lines = ['(* GENERATED by harness/tie_extract.py: the current source of Expression._numeric_partials,',
+             '   _synthetic_partials and _normalize, translated into EntryAst.nfun; and which classes override',
+             '   them -- do not edit *)',
+             'From Coq Require Import ZArith List String.', 'From SM Require Import EntryAst.',
+             'Import ListNotations.', 'Open Scope string_scope.', '']
+    t = parse(os.path.join(SRC, '_private', 'base_expression', 'expression.py'))
+    seen = set()
+    for node in t.body:
+        if isinstance(node, ast.ClassDef) and node.name == 'Expression':
+            for m in methods_of(node):
+                if m.name in ENTRY_METHODS:
+                    tr = EntryTranslator('Expression.%s' % m.name)
+                    lines.append('Definition gen_entry%s : nfun := %s.' % (m.name, tr.function(m)))
+                    seen.add(m.name)
+    if seen != set(ENTRY_METHODS):
+        raise TieError('entry points not found: %s' % sorted(set(ENTRY_METHODS) - seen))
+    overrides = []
+    for root, _d, files in os.walk(os.path.join(SRC, '_private')):
+        for fn in sorted(files):
+            if fn.endswith('.py'):
+                t = parse(os.path.join(root, fn))
+                for node in ast.walk(t):
+                    if isinstance(node, ast.ClassDef) and node.name != 'Expression':
+                        for m in methods_of(node):
+                            if m.name in ENTRY_METHODS or m.name in ('_fully_reduce', 'at', '_consolidate_expression_lacking_variables'):
+                                overrides.append('%s.%s' % (node.name, m.name))
+    expr_like = ('Expression', 'UnaryExpression', 'ParameterizedUnaryExpression', 'BinaryExpression', 'NAryExpression')
+    lines.append('')
+    lines.append('(* classes other than Expression that define an entry point (derivative objects define their own at) *)')
+    lines.append('Definition gen_entry_overrides : list string := %s.' % coq_list(
+        [coq_str(o) for o in sorted(overrides) if o.split('.')[0] not in ('Partial', 'Derivative', 'Differential', 'LocatedDifferential') or o.split('.')[1] != 'at']))
+    _ = expr_like
+    return '\n'.join(lines) + '\n'
+
+
 def write_if_changed(path, text):
     old = open(path).read() if os.path.exists(path) else None
     if old != text:
@@ -2293,6 +2502,22 @@ def main():
         print('TIE-TRANSLATE-FAILED: %s' % ex)
     if write_if_changed(os.path.join(coqdir, 'GeneratedUtil.v'), utext):
         print('GeneratedUtil.v rewritten')
+    try:
+        rtext = generate_rebuild()
+    except (TieError, SyntaxError, OSError) as ex:
+        rtext = ('(* GENERATED: the translator FAILED CLOSED: %s *)\n'
+                 'Definition rebuild_translator_failed : False := I.\n') % str(ex).replace('*)', '* )')
+        print('TIE-TRANSLATE-FAILED: %s' % ex)
+    if write_if_changed(os.path.join(coqdir, 'GeneratedRebuild.v'), rtext):
+        print('GeneratedRebuild.v rewritten')
+    try:
+        etext = generate_entry()
+    except (TieError, SyntaxError, OSError) as ex:
+        etext = ('(* GENERATED: the translator FAILED CLOSED: %s *)\n'
+                 'Definition entry_translator_failed : False := I.\n') % str(ex).replace('*)', '* )')
+        print('TIE-TRANSLATE-FAILED: %s' % ex)
+    if write_if_changed(os.path.join(coqdir, 'GeneratedEntry.v'), etext):
+        print('GeneratedEntry.v rewritten')
     out = sys.argv[1] if len(sys.argv) > 1 else os.path.join(os.path.dirname(os.path.dirname(os.path.abspath(__file__))), 'coq', 'Generated.v')
     try:
         text = generate()
